@@ -25,6 +25,8 @@ UNITS = {
     "ModBus": dict(target=("mod", "UnitM"), ports=[("a", 1), ("b", 1), ("w", 2)]),
     "ModBundle": dict(target=("mod", "UnitB"), ports=[("a", 1), ("b", 1)], bports=[("t", "B1")]),
     # bundle-valued ports named like the generators' own attributes
+    # a scalar port named like a flattened member of the bundle port next to it
+    "ModBundleClash": dict(target=("mod", "UnitBC"), ports=[("a", 1), ("b", 1), ("t_x", 1)], bports=[("t", "B1")]),
     "ModBundleNames": dict(target=("mod", "UnitBN"), ports=[("a", 1), ("b", 1)], bports=[("i", "B1"), ("inner", "B1"), ("units", "B1")]),
 }
 
@@ -45,7 +47,13 @@ def unit_modules():
         ("inst", "r", ("prim", "R", {"r": 7}), [("p", sig("a")), ("n", sig("b"))]),
         ("inst", "pi", ("ext", "P1", {"k": 5}), [("a", bref("i", "x"))]), ("inst", "pn", ("ext", "P2", {"k": 6}), [("a", bref("inner", "y"))]),
         ("inst", "pu", ("ext", "P1", {"k": 7}), [("a", bref("units", "x"))])]}
-    return exts, {"UnitM": um, "UnitB": ub, "UnitBN": ubn}
+    ubc = {"name": "UnitBC", "style": "class", "decls": [
+        ("port", "a", 1, "none"), ("port", "b", 1, "none"), ("port", "t_x", 1, "none"), ("bport", "t", "B1", False, None),
+        ("inst", "r", ("prim", "R", {"r": 8}), [("p", sig("a")), ("n", sig("b"))]),
+        ("inst", "ps", ("ext", "P1", {"k": 8}), [("a", sig("t_x"))]),
+        ("inst", "px", ("ext", "P1", {"k": 9}), [("a", bref("t", "x"))]),
+        ("inst", "py", ("ext", "P2", {"k": 10}), [("a", bref("t", "y"))])]}
+    return exts, {"UnitM": um, "UnitB": ub, "UnitBN": ubn, "UnitBC": ubc}
 
 
 def expected_design(uname, A, B, n, wrapper=False):
@@ -134,16 +142,22 @@ def judge(pkg, exp, u, n, gen):
         return ("bad", "cannot read the exported package: " + short_exc(e))
     # ports of the generated module = the unit's ports (signal and bundle valued)
     top = pkg.modules[-1]
+    import re as _re
+
     want_ports = {p: w for p, w in u["ports"]}
-    for bp, bn in u.get("bports", []):
-        want_ports.update({f"{bp}_x": 1, f"{bp}_y": 2})
     got_sigs = {s.name: s.width for s in top.signals}
     got_ports = {p.signal: got_sigs.get(p.signal) for p in top.ports}
+    ren = {}
+    for bp, bn in u.get("bports", []):
+        for mem, w in (("x", 1), ("y", 2)):
+            # the flattened member's name: `<port>_<member>`, or a fresh variant of it when a scalar port has that name
+            cands = [g for g in got_ports if _re.fullmatch(_re.escape(f"{bp}_{mem}") + "_*", g) and g not in dict(u["ports"])]
+            name = cands[0] if len(cands) == 1 else f"{bp}_{mem}"
+            want_ports[name] = w
+            ren[f"{bp}.{mem}"] = name
     if got_ports != want_ports:
         return ("bad", f"ports {got_ports} != the unit's ports {want_ports}")
     # relabel the reference partition's flattened bundle-port labels to the package's names
-    ren = {f"{bp}.x": f"{bp}_x" for bp, _ in u.get("bports", [])}
-    ren.update({f"{bp}.y": f"{bp}_y" for bp, _ in u.get("bports", [])})
     rpart = frozenset(frozenset((n_[0], ren.get(n_[1], n_[1]) if n_[0] == () else n_[1], n_[2]) for n_ in c) for c in rpart)
     # the generators may name their instances as they like (units_k / inner, or something else when a unit port has that
     # name): compare modulo the base name of the top-level instances
